@@ -92,7 +92,10 @@ def _space_uses(repo, col, cl: Classifier):
                 n_sc += idx.check_site(repo, col, cl, R, fi, "scatter." + n.func.attr, arr, ix, n, kcs=kcs)
                 # the value scattered belongs to the same key
                 v = ex.term(n.args[0])
-                same_key = v.op == "sub" and v.args[1].key() == keyt.key() and ix.op == "sub" and ix.args[1].key() == keyt.key()
+                # the index may be converted first (global edge index -> position within the synapse type): it must still be
+                # DERIVED from external_inds[<the same key>]
+                src_ix = T.find(ix, lambda x: x.op == "sub" and x.args[0].op == "param" and x.args[0].name == "external_inds")
+                same_key = v.op == "sub" and v.args[1].key() == keyt.key() and src_ix is not None and src_ix.args[1].key() == keyt.key()
                 col.check(same_key, R, fi, f"{unparse(n)}: index and value of the same key",
                           "external_inds[k] and externals[k] of the key being clamped",
                           "the clamp mixes indices and values of different keys", node=n)
@@ -106,16 +109,34 @@ def _space_uses(repo, col, cl: Classifier):
         fi = repo.method(cls, name)
         ex = idx.expander(repo, fi)
         found = 0
+        # np.where(<test of the key class>, A, B): membership tests inside A apply to the class for which the test holds, those
+        # inside B to the other class
+        restrict = {}
+        for w in ast.walk(fi.node):
+            if isinstance(w, ast.Call) and unparse(w.func).split(".")[-1] == "where" and len(w.args) == 3:
+                kt = key_test(ex.term(w.args[0]))
+                if kt is not None:
+                    cls_true = kt[0] if kt[1] else ("node" if kt[0] == "edge" else "edge")
+                    cls_false = "node" if cls_true == "edge" else "edge"
+                    for br, kcl in ((w.args[1], cls_true), (w.args[2], cls_false)):
+                        for n_ in ast.walk(br):
+                            restrict[id(n_)] = kcl
+                    for n_ in ast.walk(w.args[0]):
+                        restrict[id(n_)] = "test"
         for c in ex.calls:
             if isinstance(c.func, ast.Attribute) and c.func.attr == "isin":
+                if restrict.get(id(c)) == "test":
+                    continue
                 t = ex.term(c)
                 if t.op != "mcall":
                     continue
+                if key_test(t) is not None:
+                    continue  # a test of the key class, not a membership test of stored rows
                 if len(t.args) == 3:  # np.isin(a, b)
                     a, b = t.args[1], t.args[2]
                 else:  # a.isin(b)
                     a, b = t.args[0], t.args[1]
-                for kc in idx.KCS:
+                for kc in ((restrict[id(c)],) if id(c) in restrict else idx.KCS):
                     sa_, sb = cl.space(a, kc), cl.space(b, kc)
                     if sa_ is None or sb is None:
                         continue
@@ -238,11 +259,18 @@ def _order(repo, col):
     if i_chan is None or i_syn is None:
         raise AnalysisError("Module.step: _step_channels/_step_synapse calls not found")
 
+    exo = idx.expander(repo, fi)
+
     def clamp_stmt(st, voltage):
+        """a `u[k].at[I].set(externals[k])` whose index I derives from external_inds[k]"""
         for n in ast.walk(st):
             if isinstance(n, ast.Call) and isinstance(n.func, ast.Attribute) and n.func.attr == "set" and \
-                    isinstance(n.func.value, ast.Subscript) and unparse(n.func.value.slice).startswith("external_inds["):
-                is_v = "'v'" in unparse(n.func.value.slice)
+                    isinstance(n.func.value, ast.Subscript) and isinstance(n.func.value.value, ast.Attribute) and n.func.value.value.attr == "at":
+                it = exo.term(n.func.value.slice)
+                src = T.find(it, lambda x: x.op == "sub" and x.args[0].op == "param" and x.args[0].name == "external_inds")
+                if src is None:
+                    continue
+                is_v = src.args[1].op == "const" and src.args[1].name == "v"
                 if is_v == voltage:
                     return n
         return None
@@ -484,11 +512,23 @@ def _recs(repo, col):
                  f"row order of {t.short(80)} not derivable"), node=t.node or fn)
     col.check(len(set(forms)) == 1 and forms[0] is not None, R, fi, "initial and per-step gathers iterate the same sequence",
               "same zip(rec_states, rec_inds)", "the initial column and the per-step rows are gathered in different orders", node=asg)
-    rs = [n for n in walk_no_nested(fn) if isinstance(n, ast.Assign) and isinstance(n.targets[0], ast.Name) and n.targets[0].id in ("rec_inds", "rec_states")]
-    want = {"rec_inds": "module.recordings.rec_index.to_numpy()", "rec_states": "module.recordings.state.to_numpy()"}
-    for n in rs:
-        col.check(unparse(n.value) == want[n.targets[0].id], R, fi, f"{n.targets[0].id} is the column of the recordings table, in table order",
-                  want[n.targets[0].id], f"{n.targets[0].id} = {unparse(n.value)}", node=n)
+    # the two sequences that are zipped come from the columns of the recordings table, in table order (a per-element
+    # conversion of the index -- global edge index -> position within the synapse type -- keeps the order)
+    zz = forms[0] if forms and forms[0] is not None else None
+    for lab, t, gfi in gathers[:1]:
+        cmpz = T.find(t, lambda x: x.op == "comp" and len(x.args) >= 2 and x.args[1].op == "call" and x.args[1].name == "zip")
+        if cmpz is None:
+            continue
+        cols_found = set()
+        for a_ in cmpz.args[1].args:
+            for cname in ("rec_index", "state"):
+                if T.find(a_, lambda x: x.op == "attr" and x.name == cname and T.find(x, lambda y: y.op == "attr" and y.name == "recordings") is not None) is not None:
+                    cols_found.add(cname)
+            resort = T.find(a_, lambda x: x.op in ("mcall", "call") and x.name in ("unique", "sort", "argsort", "sorted", "sort_values", "set", "groupby"))
+            col.check(resort is None, R, fi, f"recording {('states', 'indices')[a_ is cmpz.args[1].args[-1]]} are taken in table order", "no regrouping",
+                      f"`{resort.short(60) if resort else ''}` reorders the recordings relative to the table", node=asg)
+        col.check(cols_found == {"rec_index", "state"}, R, fi, "the gathers pair recordings.state with recordings.rec_index", str(sorted(cols_found)),
+                  f"the zipped sequences derive from columns {sorted(cols_found)} of the recordings table", node=asg)
 
 
 def _sibling(repo, col):
